@@ -220,12 +220,19 @@ fn main() -> Result<()> {
       arg_value(&args, "--seed").map(|s| s.parse().unwrap()).unwrap_or(1),
       arg_value(&args, "--worlds").map(|s| s.parse().unwrap()).unwrap_or(1),
       arg_value(&args, "--ops").map(|s| s.parse().unwrap()).unwrap_or(6),
+      arg_value(&args, "--dry-splits").map(|s| s.parse().unwrap()).unwrap_or(40),
       &arg_value(&args, "--out").ok_or_else(|| anyhow!("--out"))?,
     ),
     "wallet-offers" => wallet::offers_trace(
       arg_value(&args, "--seed").map(|s| s.parse().unwrap()).unwrap_or(1),
       arg_value(&args, "--worlds").map(|s| s.parse().unwrap()).unwrap_or(1),
       arg_value(&args, "--cases").map(|s| s.parse().unwrap()).unwrap_or(40),
+      &arg_value(&args, "--out").ok_or_else(|| anyhow!("--out"))?,
+    ),
+    "wallet-batch" => wallet::batch_trace(
+      arg_value(&args, "--seed").map(|s| s.parse().unwrap()).unwrap_or(1),
+      arg_value(&args, "--worlds").map(|s| s.parse().unwrap()).unwrap_or(1),
+      arg_value(&args, "--ops").map(|s| s.parse().unwrap()).unwrap_or(6),
       &arg_value(&args, "--out").ok_or_else(|| anyhow!("--out"))?,
     ),
     "wallet-smoke" => wallet::smoke(&arg_value(&args, "--out").ok_or_else(|| anyhow!("--out"))?),
